@@ -357,7 +357,7 @@ func TestC06(t *testing.T) {
 	if t.Failed() {
 		return
 	}
-	rapidLargePart(t, c06Prop, st, pick(3000, 40000), c06Gen)
+	rapidLargePart(t, c06Prop, st, pick(800, 12000), c06Gen)
 	if t.Failed() {
 		return
 	}
